@@ -4,6 +4,7 @@ import Mathlib.Tactic.FieldSimp
 import Mathlib.Tactic.Linarith
 import Mathlib.Tactic.NormNum
 import Mathlib.Tactic.Push
+import Mathlib.Tactic.Positivity
 import Mathlib.Algebra.Order.Field.Basic
 import Mathlib.Algebra.Order.Ring.Abs
 import Mathlib.Algebra.Order.Ring.Cast
@@ -485,4 +486,197 @@ def specDiv (ψx ψy ψxx ψxy ψyy : α) (Dperp Dpar : Jet α) (R : α) (fx fy 
   let Fy := Txy * jfx + Tyy * jfy
   (Rj * Fx).x / R + Fy.y
 
+end Cherab.Admt
+
+/-! ### linearity of the dense products, and the sampled-field bookkeeping -/
+namespace Cherab.Admt
+open Cherab.Gen.Admt
+section
+variable {α : Type} [Field α]
+
+theorem dotN_entry (n : Nat) (cx cy cxx cxy cyy s : α) (A B C D E v : Nat → α) :
+    dotN n (fun j => entry cx cy cxx cxy cyy (A j) (B j) (C j) (D j) (E j) * s) v =
+      entry cx cy cxx cxy cyy (dotN n A v) (dotN n B v) (dotN n C v) (dotN n D v) (dotN n E v) * s := by
+  simp only [dotN_eq_sum]
+  induction List.range n with
+  | nil => simp [entry]
+  | cons x xs ih =>
+    simp only [List.map, List.sum_cons, ih]
+    unfold entry
+    ring
+
+theorem dotN_const_zero (n : Nat) (row : Nat → α) (c : α) (h : dotN n row (fun _ => 1) = 0) :
+    dotN n row (fun _ => c) = 0 := by
+  have : dotN n row (fun _ => c) = dotN n row (fun _ => 1) * c := by
+    simp only [dotN_eq_sum]
+    induction List.range n with
+    | nil => simp
+    | cons x xs ih => simp only [List.map, List.sum_cons, ih]; ring
+  rw [this, h, zero_mul]
+
+end
+end Cherab.Admt
+
+/-! ### extraction of dx, dy from the cell centres -/
+namespace Cherab.Admt
+section extract
+variable {α : Type} [Field α] [LinearOrder α] [IsStrictOrderedRing α]
+set_option linter.unusedSectionVars false
+
+theorem absA_eq (x : α) : absA x = |x| := by
+  unfold absA
+  split_ifs with h
+  · exact (abs_of_neg h).symm
+  · exact (abs_of_nonneg (not_lt.mp h)).symm
+
+theorem foldl_min_le (r : List α) (a : α) :
+    ∀ x ∈ a :: r, r.foldl (fun m x => if x < m then x else m) a ≤ x := by
+  induction r generalizing a with
+  | nil => intro x hx; simp at hx; simp [hx]
+  | cons b r ih =>
+    intro x hx
+    simp only [List.foldl]
+    simp only [List.mem_cons] at hx
+    split_ifs with h
+    · rcases hx with rfl | rfl | hx
+      · exact le_trans (ih b b (by simp)) h.le
+      · exact ih x x (by simp)
+      · exact ih b x (by simp [hx])
+    · rcases hx with rfl | rfl | hx
+      · exact ih x x (by simp)
+      · exact le_trans (ih a a (by simp)) (not_lt.mp h)
+      · exact ih a x (by simp [hx])
+
+theorem foldl_min_mem (r : List α) (a : α) :
+    r.foldl (fun m x => if x < m then x else m) a ∈ a :: r := by
+  induction r generalizing a with
+  | nil => simp
+  | cons b r ih =>
+    simp only [List.foldl]
+    split_ifs with h
+    · have := ih b; simp only [List.mem_cons] at this ⊢; tauto
+    · have := ih a; simp only [List.mem_cons] at this ⊢; tauto
+
+/-- `np.min(abs(d[d != 0]))` returns `d` when every non-zero entry has modulus ≥ d and one attains it -/
+theorem minAbsNonzero_eq (l : List α) (d : α) (hall : ∀ e ∈ l, e = 0 ∨ d ≤ |e|)
+    (hex : ∃ e ∈ l, e ≠ 0 ∧ |e| = d) : minAbsNonzero l = some d := by
+  unfold minAbsNonzero
+  have hmem : ∀ y ∈ (l.filter fun d => !(d == 0)).map absA, d ≤ y := by
+    intro y hy
+    simp only [List.mem_map, List.mem_filter, Bool.not_eq_true', beq_eq_false_iff_ne, ne_eq] at hy
+    obtain ⟨e, ⟨he, hne⟩, rfl⟩ := hy
+    rw [absA_eq]
+    rcases hall e he with h | h
+    · exact absurd h hne
+    · exact h
+  have hd : d ∈ (l.filter fun d => !(d == 0)).map absA := by
+    obtain ⟨e, he, hne, habs⟩ := hex
+    simp only [List.mem_map, List.mem_filter, Bool.not_eq_true', beq_eq_false_iff_ne, ne_eq]
+    exact ⟨e, ⟨he, hne⟩, by rw [absA_eq, habs]⟩
+  cases hl : (l.filter fun d => !(d == 0)).map absA with
+  | nil => rw [hl] at hd; simp at hd
+  | cons a r =>
+    rw [hl] at hd hmem
+    simp only
+    congr 1
+    apply le_antisymm
+    · exact foldl_min_le r a d hd
+    · exact hmem _ (foldl_min_mem r a)
+
+theorem diffs_map_range' (f : Nat → α) (s n : Nat) :
+    diffs ((List.range' s n).map f) = (List.range' s (n - 1)).map fun k => f (k + 1) - f k := by
+  induction n generalizing s with
+  | zero => simp [diffs]
+  | succ n ih =>
+    cases n with
+    | zero => simp [diffs, List.range']
+    | succ m =>
+      have := ih (s + 1)
+      simp only [List.range', List.map, diffs] at this ⊢
+      simp only [Nat.add_sub_cancel] at this ⊢
+      rw [this]
+      simp [List.range']
+
+
+/-- centres of the voxels of the documented layout -/
+def gridCentres (nx ny : Nat) (x0 y0 dx dy : α) : List (α × α) :=
+  (List.range (nx * ny)).map fun k => (x0 + ((k / ny : Nat) : α) * dx, y0 - ((k % ny : Nat) : α) * dy)
+
+theorem succ_div_cases (k ny : Nat) : (k + 1) / ny = k / ny ∨ (k + 1) / ny = k / ny + 1 := by
+  rw [Nat.succ_div]; split_ifs <;> simp
+
+theorem succ_mod_cases (k ny : Nat) (hny : 0 < ny) :
+    (k % ny + 1 < ny ∧ (k + 1) % ny = k % ny + 1) ∨ (k % ny + 1 = ny ∧ (k + 1) % ny = 0) := by
+  have hr := Nat.mod_lt k hny
+  have hk := Nat.div_add_mod k ny
+  by_cases h : k % ny + 1 < ny
+  · left
+    refine ⟨h, ?_⟩
+    conv_lhs => rw [← hk, Nat.add_assoc, Nat.mul_add_mod, Nat.mod_eq_of_lt h]
+  · right
+    have h' : k % ny + 1 = ny := by omega
+    refine ⟨h', ?_⟩
+    have : k + 1 = ny * (k / ny + 1) := by rw [Nat.mul_add, Nat.mul_one]; omega
+    rw [this, Nat.mul_mod_right]
+
+/-- **dx, dy as the code extracts them** (`np.min(abs(np.diff(centres)[≠ 0]))`) are the grid's steps, whatever the
+origin: with the operators' stencils not depending on coordinates at all, the generated operators depend on the
+geometry only through `(dx, dy)`. -/
+theorem extractSteps_full (nx ny : Nat) (h2x : 2 ≤ nx) (h2y : 2 ≤ ny) (x0 y0 dx dy : α) (hdx : 0 < dx)
+    (hdy : 0 < dy) : extractSteps (gridCentres nx ny x0 y0 dx dy) = some (dx, dy) := by
+  have hn : 2 * ny ≤ nx * ny := Nat.mul_le_mul_right _ h2x
+  unfold extractSteps gridCentres
+  simp only [List.map_map, Function.comp_def, List.range_eq_range', diffs_map_range']
+  have hx : minAbsNonzero ((List.range' 0 (nx * ny - 1)).map fun k =>
+      (x0 + (((k + 1) / ny : Nat) : α) * dx) - (x0 + ((k / ny : Nat) : α) * dx)) = some dx := by
+    apply minAbsNonzero_eq
+    · intro e he
+      simp only [List.mem_map, List.mem_range'_1] at he
+      obtain ⟨k, _, rfl⟩ := he
+      rcases succ_div_cases k ny with h | h
+      · left; rw [h]; ring
+      · right; rw [h]; push_cast
+        have : x0 + ((k / ny : Nat) + 1 : α) * dx - (x0 + ((k / ny : Nat) : α) * dx) = dx := by ring
+        rw [this, abs_of_pos hdx]
+    · refine ⟨dx, ?_, hdx.ne', abs_of_pos hdx⟩
+      simp only [List.mem_map, List.mem_range'_1]
+      refine ⟨ny - 1, ⟨by omega, by omega⟩, ?_⟩
+      have e1 : (ny - 1 + 1) / ny = 1 := by rw [Nat.sub_add_cancel (by omega)]; exact Nat.div_self (by omega)
+      have e2 : (ny - 1) / ny = 0 := Nat.div_eq_of_lt (by omega)
+      rw [e1, e2]; push_cast; ring
+  have hy : minAbsNonzero ((List.range' 0 (nx * ny - 1)).map fun k =>
+      (y0 - (((k + 1) % ny : Nat) : α) * dy) - (y0 - ((k % ny : Nat) : α) * dy)) = some dy := by
+    apply minAbsNonzero_eq
+    · intro e he
+      simp only [List.mem_map, List.mem_range'_1] at he
+      obtain ⟨k, _, rfl⟩ := he
+      right
+      rcases succ_mod_cases k ny (by omega) with ⟨_, h⟩ | ⟨h1, h⟩
+      · rw [h]; push_cast
+        have : y0 - ((k % ny : Nat) + 1 : α) * dy - (y0 - ((k % ny : Nat) : α) * dy) = -dy := by ring
+        rw [this, abs_neg, abs_of_pos hdy]
+      · rw [h]; push_cast
+        have : y0 - (0 : α) * dy - (y0 - ((k % ny : Nat) : α) * dy) = ((k % ny : Nat) : α) * dy := by ring
+        rw [this]
+        have h1' : 1 ≤ k % ny := by omega
+        have : (1 : α) ≤ ((k % ny : Nat) : α) := by exact_mod_cast h1'
+        rw [abs_of_nonneg (by positivity)]
+        nlinarith
+    · refine ⟨-dy, ?_, by linarith [hdy], by rw [abs_neg, abs_of_pos hdy]⟩
+      simp only [List.mem_map, List.mem_range'_1]
+      refine ⟨0, ⟨by omega, by omega⟩, ?_⟩
+      have e1 : (0 + 1) % ny = 1 := Nat.mod_eq_of_lt (by omega)
+      rw [e1, Nat.zero_mod]; push_cast; ring
+  rw [hx, hy]
+
+/-- `np.mean` of the four vertices of an axis-aligned `dx × dy` voxel centred at `(h, k)` is `(h, k)` -/
+theorem centre_rect (h k dx dy : α) :
+    centre [(h + dx / 2, k + dy / 2), (h + dx / 2, k - dy / 2), (h - dx / 2, k - dy / 2), (h - dx / 2, k + dy / 2)]
+      = (h, k) := by
+  simp only [centre, List.foldl, List.length]
+  push_cast
+  rw [Prod.mk.injEq]
+  constructor <;> ring
+
+end extract
 end Cherab.Admt
